@@ -615,3 +615,146 @@ GLOBAL_MODELS = [
     (R(r'HashMap::len$'), m_map_len),
     (R(r'HashMap::is_empty$'), m_map_is_empty),
 ]
+
+
+# ----------------------------------------------------------------------------- byte arrays / slices
+def conc(v):
+    if isinstance(v, z3.ExprRef):
+        sv = z3.simplify(v)
+        if z3.is_bv_value(sv):
+            return sv.as_long()
+    return None
+
+
+def as_array(ex, p, v):
+    v = ex.deref(p, v)
+    if isinstance(v, Bytes):
+        return bytes_to_agg(v)
+    if isinstance(v, Agg) and v.kind == 'array':
+        return v
+    return None
+
+
+def m_range_new(ex, p, call, k):
+    k(p, Agg('RangeInclusive', None, (call.args[0], call.args[1]), 'struct'))
+
+
+def range_bounds(r, n):
+    """(lo, hi_exclusive) of a range value over a sequence of length n, or None"""
+    if not isinstance(r, Agg):
+        return None
+    f = [conc(x) for x in r.fields]
+    if r.name == 'RangeInclusive' and len(f) >= 2 and None not in f[:2]:
+        return f[0], f[1] + 1
+    if r.name == 'Range' and len(f) == 2 and None not in f:
+        return f[0], f[1]
+    if r.name == 'RangeTo' and len(f) == 1 and f[0] is not None:
+        return 0, f[0]
+    if r.name == 'RangeFrom' and len(f) == 1 and f[0] is not None:
+        return f[0], n
+    if r.name == 'RangeToInclusive' and len(f) == 1 and f[0] is not None:
+        return 0, f[0] + 1
+    if r.name == 'RangeFull':
+        return 0, n
+    return None
+
+
+def m_index_range(ex, p, call, k):
+    base, r = call.args[0], call.args[1]
+    if not isinstance(base, Ptr):
+        return NotImplemented
+    arr = as_array(ex, p, base)
+    if arr is None:
+        return NotImplemented
+    # pointer to the array itself (skip pointer-to-pointer levels)
+    tgt = base
+    while True:
+        inner = ex.read_loc(p, None, tgt.key, tgt.projs)
+        if isinstance(inner, Ptr):
+            tgt = inner
+        else:
+            break
+    if isinstance(r, z3.ExprRef):
+        i = conc(r)
+        if i is None or i >= len(arr.fields):
+            return NotImplemented
+        return k(p, Ptr(tgt.key, tgt.projs + (('index', '?', i),), tgt.mut))
+    b = range_bounds(r, len(arr.fields))
+    if b is None:
+        return NotImplemented
+    lo, hi = b
+    if lo > hi or hi > len(arr.fields):
+        p.events.append(Event('panic', 'slice index out of range', (), None, call.span, call.depth))
+        return ex.end_path(p, 'panic', 'slice index out of range')
+    k(p, Ptr(tgt.key, tgt.projs + (('range', lo, hi),), tgt.mut))
+
+
+def m_copy_from_slice(ex, p, call, k):
+    dst, src = call.args
+    s_arr = as_array(ex, p, src)
+    d_arr = as_array(ex, p, dst)
+    if s_arr is None or d_arr is None or not isinstance(dst, Ptr):
+        return NotImplemented
+    if len(s_arr.fields) != len(d_arr.fields):
+        p.events.append(Event('panic', 'copy_from_slice: length mismatch', (), None, call.span, call.depth))
+        return ex.end_path(p, 'panic', 'copy_from_slice length mismatch')
+    tgt = dst
+    while True:
+        inner = ex.read_loc(p, None, tgt.key, tgt.projs)
+        if isinstance(inner, Ptr):
+            tgt = inner
+        else:
+            break
+    ex.store(p, tgt, s_arr)
+    k(p, UNIT)
+
+
+def m_array_eq(ex, p, call, k):
+    meth = call.short.rsplit('::', 1)[-1]
+    a, b = as_array(ex, p, call.args[0]), as_array(ex, p, call.args[1])
+    if a is None or b is None:
+        return NotImplemented
+    if len(a.fields) != len(b.fields):
+        e = z3.BoolVal(False)
+    else:
+        parts = []
+        for x, y in zip(a.fields, b.fields):
+            if not (isinstance(x, z3.ExprRef) and isinstance(y, z3.ExprRef)):
+                return NotImplemented
+            parts.append(x == y)
+        e = z3.And(parts) if parts else z3.BoolVal(True)
+    k(p, e if meth == 'eq' else z3.Not(e))
+
+
+def m_from_bytes(ex, p, call, k):
+    meth = call.short.rsplit('::', 1)[-1]
+    arr = as_array(ex, p, call.args[0])
+    if arr is None or not all(isinstance(x, z3.ExprRef) and z3.is_bv(x) and x.size() == 8 for x in arr.fields) or len(arr.fields) < 2:
+        return NotImplemented
+    f = list(arr.fields)
+    if meth == 'from_le_bytes':
+        f = f[::-1]
+    k(p, z3.Concat(*f))
+
+
+def m_to_bytes(ex, p, call, k):
+    meth = call.short.rsplit('::', 1)[-1]
+    v = call.args[0]
+    if not (isinstance(v, z3.ExprRef) and z3.is_bv(v)) or v.size() % 8:
+        return NotImplemented
+    n = v.size() // 8
+    parts = [z3.Extract(8 * (n - i) - 1, 8 * (n - i - 1), v) for i in range(n)]
+    if meth == 'to_le_bytes':
+        parts = parts[::-1]
+    k(p, Agg('[]', None, parts, 'array'))
+
+
+BYTE_MODELS = [
+    (R(r'RangeInclusive::new$'), m_range_new),
+    (R(r' as Index(Mut)?>::index(_mut)?$'), m_index_range),
+    (R(r'slice::copy_from_slice$'), m_copy_from_slice),
+    (R(r' as PartialEq>::(eq|ne)$'), m_array_eq),
+    (R(r'num::from_(be|le)_bytes$'), m_from_bytes),
+    (R(r'num::to_(be|le)_bytes$'), m_to_bytes),
+]
+GLOBAL_MODELS = BYTE_MODELS + GLOBAL_MODELS
